@@ -142,6 +142,9 @@ def mk_call(q, args):
         return args[0]
     if q in ("builtins.float", "float") and len(args) == 1 and is_num(args[0]) and not isinstance(args[0][1], bool):
         return num(float(args[0][1]))
+    if q in ("builtins.float", "float", "builtins.int", "int", "builtins.str", "str", "builtins.bool", "bool") and len(args) == 1 and args[0][0] == "call" \
+            and args[0][1] == q.rsplit(".", 1)[-1] and len(args[0][2]) == 1:
+        return args[0]          # float(float(x)) is float(x): converting a value that already has exactly that type
     if q in ("re.match", "re.fullmatch", "re.search") and len(args) >= 2:
         return ("call", q, args)
     if q in FUNC_ALIASES:
@@ -380,6 +383,22 @@ class Extractor:
                     spec = "".join(x.value for x in v.format_spec.values if isinstance(x, ast.Constant)) if v.format_spec is not None else ""
                     parts.append(("fmt", self.ev(v.value, env), spec))
             return mk_fstr(parts)
+        if isinstance(e, (ast.ListComp, ast.GeneratorExp)) and len(e.generators) == 1 and not e.generators[0].ifs and isinstance(e.generators[0].target, (ast.Tuple, ast.List)):
+            # [f(a, b) for a, b in zip(xs, (k1, k2, k3))]: written out over the rows (a sequence of unknown length zipped with a
+            # display is cut to the display's length)
+            g = e.generators[0]
+            seq = self.ev(g.iter, env)
+            if seq[0] == "call" and seq[1] in ("zip", "builtins.zip") and any(a[0] == "tuple" for a in seq[2]) and not any(a[0] == "kw" for a in seq[2]):
+                n = min(len(a[1]) for a in seq[2] if a[0] == "tuple")
+                seq = ("tuple", tuple(("tuple", tuple(a[1][i] if a[0] == "tuple" else rebuild_node(("index", a, num(i))) for a in seq[2])) for i in range(n)))
+            if seq[0] == "tuple":
+                out = []
+                for row in seq[1]:
+                    env2 = dict(env)
+                    self.assign(g.target, row, env2)
+                    out.append(self.ev(e.elt, env2))
+                return ("tuple", tuple(out))
+            raise Unsupported("comprehension with tuple target over an unreadable sequence")
         if isinstance(e, (ast.ListComp, ast.GeneratorExp)) and len(e.generators) == 1 and e.generators[0].ifs and isinstance(e.generators[0].target, ast.Name):
             g = e.generators[0]
             seq = self.ev(g.iter, env)
